@@ -17,7 +17,9 @@ import time
 
 ROOT = os.path.dirname(os.path.dirname(os.path.abspath(__file__)))
 SPEC = os.path.join(ROOT, "spec")
-HARNESS = os.path.join(ROOT, "harness")
+# VERIF_HARNESS_DIR: a scratch copy of harness/ whose path dependencies point at a scratch worktree of
+# the repository (used only to try the checks against seeded changes without touching /repo)
+HARNESS = os.environ.get("VERIF_HARNESS_DIR", os.path.join(ROOT, "harness"))
 WORK = os.path.join(ROOT, "work")
 EVID = os.path.join(ROOT, "evidence")
 REPLAYS = os.path.join(ROOT, "replays")
